@@ -11,6 +11,7 @@ import (
 	"net/http"
 	"net/http/httptest"
 	"net/url"
+	"os"
 	"sort"
 	"strconv"
 	"strings"
@@ -20,6 +21,8 @@ import (
 
 	"golang.org/x/crypto/bcrypt"
 
+	"github.com/postalsys/muti-metroo/internal/agent"
+	"github.com/postalsys/muti-metroo/internal/config"
 	"github.com/postalsys/muti-metroo/internal/filetransfer"
 	"github.com/postalsys/muti-metroo/internal/health"
 	"github.com/postalsys/muti-metroo/internal/identity"
@@ -221,12 +224,69 @@ func c24Race(k, rounds int) string {
 
 var c24RaceHash string
 
+// gate <minimal 0|1> <pprof u|t|f> <dashboard u|t|f> <remote_api u|t|f> <method> <path hex>
+//   -> pat=<Request.Pattern|-> st=<404|301|h>
+// The HTTP server is the one the AGENT builds: the YAML configuration is parsed by config.Parse,
+// agent.New wires cfg.HTTP into health.ServerConfig, and the request is served by that handler.
+var c24Agents = map[string]http.Handler{}
+
+func c24Gate(f []string) string {
+	key := strings.Join(f[1:5], "")
+	h, ok := c24Agents[key]
+	if !ok {
+		dir, err := os.MkdirTemp("", "verif-c24-agent-")
+		must(err)
+		y := "agent:\n  data_dir: \"" + dir + "\"\nhttp:\n  enabled: true\n  address: \"127.0.0.1:0\"\n"
+		if f[1] == "1" {
+			y += "  minimal: true\n"
+		}
+		for i, name := range []string{"pprof", "dashboard", "remote_api"} {
+			switch f[2+i] {
+			case "t":
+				y += "  " + name + ": true\n"
+			case "f":
+				y += "  " + name + ": false\n"
+			}
+		}
+		cfg, err := config.Parse([]byte(y))
+		must(err)
+		a, err := agent.New(cfg)
+		must(err)
+		h = agent.VerifC24Handler(a)
+		if h == nil {
+			panic("agent built no HTTP server")
+		}
+		c24Agents[key] = h
+	}
+	req := httptest.NewRequest(f[5], string(unhexTok(f[6])), nil)
+	ctx, cancel := context.WithTimeout(req.Context(), 25*time.Millisecond)
+	defer cancel()
+	req = req.WithContext(ctx)
+	rec := httptest.NewRecorder()
+	h.ServeHTTP(rec, req)
+	pat := req.Pattern
+	if pat == "" {
+		pat = "-"
+	}
+	st := "h"
+	switch {
+	case rec.Code == 301:
+		st, pat = "301", "*"
+	case rec.Code == 404 && rec.Body.String() == "404 page not found\n":
+		st = "404"
+	}
+	return fmt.Sprintf("pat=%s st=%s", pat, st)
+}
+
 func c24Run(line string) string {
 	f := fields(line)
 	if f[0] == "race" && len(f) == 3 {
 		k, _ := strconv.Atoi(f[1])
 		rounds, _ := strconv.Atoi(f[2])
 		return c24Race(k, rounds)
+	}
+	if f[0] == "gate" && len(f) == 7 {
+		return c24Gate(f)
 	}
 	if f[0] != "req" || len(f) != 8 {
 		return "bad-op"
@@ -482,6 +542,23 @@ func init() {
 // c24GenAll = the request stream plus the concurrent wrong-token case (sparingly: bcrypt cost 10).
 func c24GenAll(w *bufio.Writer, seed int64, tier string) {
 	c24Gen(w, seed, tier)
+	// configuration -> server wiring: every combination of minimal x {unset, true, false}^3, served by the
+	// handler the agent itself builds from the parsed YAML (independent of the seed)
+	gpaths := []string{"/agents", "/sleep/status", "/api/topology", "/api/nodes", "/debug/pprof/cmdline", "/debug/pprof/", "/health", "/", "/nosuch"}
+	for _, m := range []string{"0", "1"} {
+		for _, p := range []string{"u", "t", "f"} {
+			for _, d := range []string{"u", "t", "f"} {
+				for _, r := range []string{"u", "t", "f"} {
+					for _, gp := range gpaths {
+						if tier != "thorough" && m == "0" && (gp == "/sleep/status" || gp == "/api/nodes" || gp == "/debug/pprof/" || gp == "/nosuch") {
+							continue
+						}
+						fmt.Fprintf(w, "gate %s %s %s %s GET %s\n", m, p, d, r, hexTok([]byte(gp)))
+					}
+				}
+			}
+		}
+	}
 	if tier == "thorough" {
 		fmt.Fprintln(w, "race 12 6")
 		fmt.Fprintln(w, "race 4 4")
